@@ -38,7 +38,12 @@ import itertools
 from typing import List
 
 from pydcop.utils.expressionfunction import ExpressionFunction
-from pydcop.utils.simple_repr import SimpleRepr, SimpleReprException, simple_repr
+from pydcop.utils.simple_repr import (
+    SimpleRepr,
+    SimpleReprException,
+    simple_repr,
+    from_repr,
+)
 
 VariableName = str
 
@@ -459,6 +464,26 @@ class VariableWithCostDict(Variable):
         return VariableWithCostDict(
             self.name, self.domain, self._costs, initial_value=self.initial_value
         )
+
+    def _simple_repr(self):
+        # The keys of the costs dict are domain values, often int: json only
+        # supports str keys and gives back a dict with str keys, for which
+        # cost_for_val() never matches. Keep the typed keys in a list.
+        r = super()._simple_repr()
+        r["cost_values"] = simple_repr(list(self._costs.keys()))
+        return r
+
+    @classmethod
+    def _from_repr(cls, r):
+        args = {
+            k: from_repr(v)
+            for k, v in r.items()
+            if k not in ["__qualname__", "__module__", "cost_values"]
+        }
+        if "cost_values" in r:
+            values = from_repr(r["cost_values"])
+            args["costs"] = dict(zip(values, args["costs"].values()))
+        return cls(**args)
 
 
 class VariableWithCostFunc(Variable):
